@@ -25,6 +25,7 @@ def _subs(mod) -> dict[str, Sub]:
 
 def _shard_worker(args):
     prop, tier, shard, nshards = args
+    runner.limit_resources()
     mod = _load(prop)
     col = Collector(prop)
     for sub in mod.SUBS:
@@ -68,6 +69,7 @@ def main(argv: list[str]) -> int:
         print("tier must be quick or thorough")
         return 2
     os.environ["VERIF_TIER"] = tier
+    runner.limit_resources()
     seed = int(os.environ.get("VERIF_SEED", "1") or "1")
     t0 = time.monotonic()
     try:
@@ -175,6 +177,7 @@ def main(argv: list[str]) -> int:
             "replayed_corpus_cases": n_replayed,
             "excluded_known": [{"what": k["what"], "bucket": k["bucket"], "cases": c} for k, c in known_hits],
             "invalid_cases": col.invalid,
+            "inconclusive_case_timeouts": col.timeouts,
             "stopped_by_time_budget": col.budget_stopped,
             "shards": 1 if tier == "quick" else NSHARDS,
             **extra,
